@@ -568,3 +568,377 @@ func ruleSearchResDiscipline(c *Ctx, rule string) {
 		c.unresolvedRoot("stores into the saved search result of the in-memory backend")
 	}
 }
+
+// ruleAtomicGuardedClose: C13.n. A type that carries an atomic flag
+// (sync/atomic.Bool …) is meant to be used from several goroutines; a
+// close(ch) of one of its channels in a method is a one-shot action and must be
+// guarded by the flag's atomic read-modify-write (Swap / CompareAndSwap), not
+// by a plain Load followed by a later Store: two concurrent callers both pass
+// a Load and the second close panics.
+func ruleAtomicGuardedClose(c *Ctx, rule string, pkgs ...string) {
+	p := c.P
+	n := 0
+	hasAtomicField := func(nm *types.Named) bool {
+		st, ok := nm.Underlying().(*types.Struct)
+		if !ok {
+			return false
+		}
+		for i := 0; i < st.NumFields(); i++ {
+			if strings.HasPrefix(st.Field(i).Type().String(), "sync/atomic.") {
+				return true
+			}
+		}
+		return false
+	}
+	for _, fn := range p.SrcFuncs(pkgs...) {
+		nm := recvNamedOfFn(fn)
+		if nm == nil || !hasAtomicField(nm) || len(fn.Params) == 0 {
+			continue
+		}
+		// only what the user can call (concurrently): the type's own
+		// goroutine runs once
+		if o, ok := fn.Object().(*types.Func); !ok || !o.Exported() {
+			continue
+		}
+		recv := fn.Params[0]
+		var closes []ssa.Instruction
+		allInstrs(fn, func(i ssa.Instruction) {
+			ci, ok := i.(ssa.CallInstruction)
+			if !ok {
+				return
+			}
+			b, ok := ci.Common().Value.(*ssa.Builtin)
+			if !ok || b.Name() != "close" || len(ci.Common().Args) != 1 {
+				return
+			}
+			if r, ok := loadedField(ci.Common().Args[0]); ok && (r.Base == ssa.Value(recv) || paramOf(r.Base) == recv) {
+				closes = append(closes, i)
+			}
+		})
+		if len(closes) == 0 {
+			continue
+		}
+		flow := mustFlow(fn, facts{}, nil, func(f facts, b *ssa.BasicBlock, s int) facts {
+			for _, a := range edgeAtoms(b, s) {
+				call, ok := a.V.(*ssa.Call)
+				if !ok || a.True == 0 {
+					continue
+				}
+				o := calleeObj(call)
+				if o == nil || o.Pkg() == nil || o.Pkg().Path() != "sync/atomic" {
+					continue
+				}
+				// Swap(true) returning false, or CompareAndSwap returning true: this caller won
+				if o.Name() == "Swap" && a.True == -1 || o.Name() == "CompareAndSwap" && a.True == 1 {
+					f = f.with("won")
+				}
+			}
+			return f
+		})
+		for _, cl := range closes {
+			f, reach := flow.at(cl)
+			if !reach {
+				continue
+			}
+			n++
+			c.check(f.has("won"), rule, fmt.Sprintf("%s: close#%d", fnKey(fn), countKey(c, rule, fnKey(fn)+": close#")+1), cl.Pos(),
+				"the close is reached only by the caller that won the atomic test-and-set",
+				"the channel is closed without an atomic test-and-set on the type's flag (a Load followed by a later Store lets two concurrent callers through): the second close panics")
+		}
+	}
+	if n == 0 {
+		c.unresolvedRoot("channel closes in methods of types with an atomic flag")
+	}
+}
+
+// ruleEncoderEndOnce: C13.o. A command object that owns the command encoder
+// (and with it Client.encMutex) releases it at most once: the call of
+// commandEncoder.end() through the owning field is guarded by a non-nil test
+// of that field and followed, on every path, by resetting the field to nil. A
+// second Close otherwise unlocks a mutex that another goroutine's command
+// holds (its literal is then interleaved with a third command) or panics.
+func ruleEncoderEndOnce(c *Ctx, rule string) {
+	p := c.P
+	end := p.Func("imapclient", "commandEncoder", "end")
+	if end == nil {
+		c.unresolvedRoot("(*commandEncoder).end")
+		return
+	}
+	n := 0
+	for _, fn := range p.SrcFuncs("imapclient") {
+		// what the user can call again: methods with an exported name
+		if o, ok := fn.Object().(*types.Func); !ok || !o.Exported() || fn.Signature.Recv() == nil {
+			continue
+		}
+		var sites []*ssa.Call
+		allInstrs(fn, func(i ssa.Instruction) {
+			if call, ok := i.(*ssa.Call); ok && staticCallee(call) == end && len(call.Call.Args) > 0 {
+				if r, ok := loadedField(call.Call.Args[0]); ok && r.Field != nil && r.Owner != nil {
+					sites = append(sites, call)
+				}
+			}
+		})
+		for _, site := range sites {
+			r, _ := loadedField(site.Call.Args[0])
+			flow := mustFlow(fn, facts{}, func(f facts, i ssa.Instruction) facts {
+				if st, ok := i.(*ssa.Store); ok {
+					if r2, ok := fieldOf(st.Addr); ok && r2.Field == r.Field {
+						if isNilConst(st.Val) {
+							return f.with("reset")
+						}
+						return f.without(func(s string) bool { return s == "reset" })
+					}
+				}
+				if i == ssa.Instruction(site) {
+					return f.without(func(s string) bool { return s == "reset" })
+				}
+				return f
+			}, func(f facts, b *ssa.BasicBlock, s int) facts {
+				for _, a := range edgeAtoms(b, s) {
+					if a.Nil == -1 {
+						if r2, ok := loadedField(a.V); ok && r2.Field == r.Field {
+							f = f.with("nonnil")
+						}
+					}
+					if a.Nil == 1 {
+						if r2, ok := loadedField(a.V); ok && r2.Field == r.Field {
+							f = f.with("reset") // already released
+						}
+					}
+				}
+				return f
+			})
+			f, reach := flow.at(site)
+			if !reach {
+				continue
+			}
+			okReset := true
+			for _, ret := range returnsOf(fn) {
+				if ret.Block() != site.Block() && !reaches(site.Block(), ret.Block()) {
+					continue
+				}
+				rf, rr := flow.at(ret)
+				if rr && !rf.has("reset") {
+					okReset = false
+				}
+			}
+			n++
+			c.check(f.has("nonnil") && okReset, rule, fmt.Sprintf("%s: %s.end()", fnKey(fn), r.String()), site.Pos(),
+				"guarded by a non-nil test of the owning field and followed by resetting it",
+				"the encoder held in "+r.String()+" is ended without the `!= nil` guard or without resetting the field afterwards: a second call releases Client.encMutex again — while another goroutine's command holds it (commands interleave on the wire) or when nobody does (fatal unlock of unlocked mutex)")
+		}
+	}
+	if n == 0 {
+		c.unresolvedRoot("commandEncoder.end() through an owning field")
+	}
+}
+
+// ruleNoCommandWhileEncoding: C10.o. Between beginCommand (which takes
+// Client.encMutex) and the end of the command's encoding no function that may
+// itself issue a command and wait for it (Client.Caps → Capability().Wait())
+// is called: it would wait for the very lock this goroutine holds.
+func ruleNoCommandWhileEncoding(c *Ctx, rule string) {
+	p := c.P
+	begin := p.Func("imapclient", "Client", "beginCommand")
+	if begin == nil {
+		c.unresolvedRoot("(*Client).beginCommand")
+		return
+	}
+	// functions that may issue a command and wait for its completion
+	issues := map[*ssa.Function]bool{}
+	waits := map[*ssa.Function]bool{}
+	for _, fn := range p.SrcFuncs("imapclient") {
+		allInstrs(fn, func(i ssa.Instruction) {
+			if call, ok := i.(ssa.CallInstruction); ok {
+				if _, isGo := i.(*ssa.Go); isGo {
+					return
+				}
+				if cal := staticCallee(call); cal != nil {
+					if cal == begin {
+						issues[fn] = true
+					}
+					if cal.Name() == "Wait" && pkgPathOf(cal) == modPath+"/imapclient" {
+						waits[fn] = true
+					}
+				}
+				// a blocking receive counts as waiting too
+			}
+			if u, ok := i.(*ssa.UnOp); ok && u.Op == token.ARROW {
+				waits[fn] = true
+			}
+		})
+	}
+	// transitive: reaches an issuing function and a wait (not through go statements)
+	var reach func(fn *ssa.Function, target map[*ssa.Function]bool, seen map[*ssa.Function]bool, d int) bool
+	reach = func(fn *ssa.Function, target map[*ssa.Function]bool, seen map[*ssa.Function]bool, d int) bool {
+		if fn == nil || seen[fn] || d > 5 || fn.Blocks == nil {
+			return false
+		}
+		seen[fn] = true
+		if target[fn] {
+			return true
+		}
+		found := false
+		allInstrs(fn, func(i ssa.Instruction) {
+			if _, isGo := i.(*ssa.Go); isGo {
+				return
+			}
+			if call, ok := i.(ssa.CallInstruction); ok && !found {
+				if cal := staticCallee(call); cal != nil && inModule(cal) && reach(cal, target, seen, d+1) {
+					found = true
+				}
+			}
+		})
+		return found
+	}
+	blocking := func(fn *ssa.Function) bool {
+		return reach(fn, issues, map[*ssa.Function]bool{}, 0) && reach(fn, waits, map[*ssa.Function]bool{}, 0)
+	}
+	n := 0
+	for _, fn := range p.SrcFuncs("imapclient") {
+		if fn == begin {
+			continue
+		}
+		var bsite *ssa.Call
+		allInstrs(fn, func(i ssa.Instruction) {
+			if call, ok := i.(*ssa.Call); ok && staticCallee(call) == begin && bsite == nil {
+				bsite = call
+			}
+		})
+		if bsite == nil {
+			continue
+		}
+		n++
+		bad := ""
+		var badPos token.Pos
+		allInstrs(fn, func(i ssa.Instruction) {
+			call, ok := i.(*ssa.Call)
+			if !ok || call == bsite {
+				return
+			}
+			cal := staticCallee(call)
+			if cal == nil || !inModule(cal) || cal == begin {
+				return
+			}
+			after := call.Block() == bsite.Block() && precedes(bsite, call) || call.Block() != bsite.Block() && bsite.Block().Dominates(call.Block())
+			if !after {
+				return
+			}
+			// the encoder has been ended explicitly before this call
+			ended := false
+			allInstrs(fn, func(j ssa.Instruction) {
+				e, ok := j.(*ssa.Call)
+				if !ok || e == call {
+					return
+				}
+				if k := callKey(e); k != "(*commandEncoder).end" {
+					return
+				}
+				if e.Block() == call.Block() && precedes(e, call) || e.Block() != call.Block() && e.Block().Dominates(call.Block()) {
+					ended = true
+				}
+			})
+			if ended {
+				return
+			}
+			// the command's own Wait after its encoding has ended is the normal pattern:
+			// only calls that *issue* another command are a problem
+			if blocking(cal) && reach(cal, issues, map[*ssa.Function]bool{}, 0) {
+				bad, badPos = fnKey(cal), call.Pos()
+			}
+		})
+		c.check(bad == "", rule, fnKey(fn)+": no command issued while holding the encoder", bsite.Pos(),
+			"no call between beginCommand and the end of the function can issue and await another command",
+			fmt.Sprintf("%s is called (at %s) after beginCommand has taken the encoder lock; it may issue a command of its own and wait for it — which needs the same lock: the goroutine waits for itself and the client hangs", bad, p.pos(badPos)))
+	}
+	if n == 0 {
+		c.unresolvedRoot("callers of beginCommand")
+	}
+}
+
+// ruleContReqResolved: C10.p. A continuation request taken off the client's
+// queue is resolved — Done or Cancel — on every path that follows: its writer
+// blocks in Wait until then, and nothing else will ever find the request
+// again. (Parsing the rest of the '+' line must therefore come first, or its
+// failure path must cancel.)
+func ruleContReqResolved(c *Ctx, rule string) {
+	p := c.P
+	n := 0
+	for _, fn := range p.SrcFuncs("imapclient") {
+		var pops []*ssa.Store
+		allInstrs(fn, func(i ssa.Instruction) {
+			st, ok := i.(*ssa.Store)
+			if !ok {
+				return
+			}
+			r, ok := fieldOf(st.Addr)
+			if !ok || !r.is("Client", "contReqs") || isNilConst(st.Val) {
+				return
+			}
+			// a pop: the stored value is built from a re-slice of the field starting at 1
+			isPop := false
+			seen := map[ssa.Value]bool{}
+			var walk func(v ssa.Value, d int)
+			walk = func(v ssa.Value, d int) {
+				if v == nil || seen[v] || d > 6 {
+					return
+				}
+				seen[v] = true
+				if sl, ok := v.(*ssa.Slice); ok && sl.Low != nil {
+					if k, ok := constInt(sl.Low); ok && k >= 1 {
+						isPop = true
+					}
+				}
+				if in, ok := v.(ssa.Instruction); ok {
+					for _, op := range in.Operands(nil) {
+						if *op != nil {
+							walk(*op, d+1)
+						}
+					}
+				}
+			}
+			walk(st.Val, 0)
+			if isPop {
+				pops = append(pops, st)
+			}
+		})
+		if len(pops) == 0 {
+			continue
+		}
+		flow := mustFlow(fn, facts{}, func(f facts, i ssa.Instruction) facts {
+			if call, ok := i.(ssa.CallInstruction); ok {
+				if k := callKey(call); k == "(*ContinuationRequest).Done" || k == "(*ContinuationRequest).Cancel" {
+					return f.with("resolved")
+				}
+			}
+			return f
+		}, func(f facts, b *ssa.BasicBlock, s int) facts {
+			for _, a := range edgeAtoms(b, s) {
+				// the request variable is nil: nothing was taken off the queue
+				if a.Nil == 1 && strings.HasSuffix(a.V.Type().String(), "ContinuationRequest") {
+					f = f.with("resolved")
+				}
+			}
+			return f
+		})
+		for _, pop := range pops {
+			bad := token.NoPos
+			for _, ret := range returnsOf(fn) {
+				if ret.Block() != pop.Block() && !reaches(pop.Block(), ret.Block()) {
+					continue
+				}
+				f, reach := flow.at(ret)
+				if reach && !f.has("resolved") {
+					bad = ret.Pos()
+				}
+			}
+			n++
+			c.check(!bad.IsValid(), rule, fmt.Sprintf("%s: popped continuation request#%d", fnKey(fn), n), pop.Pos(),
+				"every return after the pop has called Done or Cancel on the request",
+				"a return (at "+p.pos(bad)+") follows the removal of the oldest continuation request from the queue without Done or Cancel: the writer blocked in Wait (IDLE, a synchronising literal) is never woken")
+		}
+	}
+	if n == 0 {
+		c.unresolvedRoot("pops of Client.contReqs")
+	}
+}
